@@ -258,6 +258,20 @@ class ParseContext:
 
     return attr_names, attr_chain
 
+  def can_resolve(self, selector):
+    """Whether `selector` names an object reachable through this context's imports.
+
+    This is only ever true with dynamic registration, where a name is known as
+    soon as the file's own imports provide it, registered already or not.
+    """
+    if not self._dynamic_registration:
+      return False
+    try:
+      self._resolve_selector(selector)
+    except (NameError, AttributeError):
+      return False
+    return True
+
   def _import_source(
       self,
       import_statement: Optional[config_parser.ImportStatement],
@@ -845,6 +859,8 @@ def _should_skip(selector, skip_unknown):
   _validate_skip_unknown(skip_unknown)
   if _REGISTRY.matching_selectors(selector):
     return False  # Never skip known configurables.
+  if _parse_context().can_resolve(selector):
+    return False  # Known through the file's imports, just not registered yet.
   if isinstance(skip_unknown, (list, tuple, set)):
     return selector in skip_unknown
   return skip_unknown  # Must be a bool by validation check.
